@@ -186,7 +186,7 @@ func init() {
 			}
 			return acts >= 3 && tn >= 1
 		},
-		MinQuick: 20, MinThorough: 200,
+		MinQuick: 14, MinThorough: 150,
 		Counters:     []string{"rounds-completed", "leader-self-demotions-committed", "self-shutdowns-on-removal", "elections", "config-entries", "serve-exits-node-removed"},
 		Prefixes:     []string{"config-actions:", "timeout-now:"},
 		SampleTopics: []string{"promotion"},
